@@ -247,30 +247,53 @@ def r14_5_write_path_stores(chk):
 
 # ---------------------------------------------------------------------------------------------------- R14.6
 def r14_6_nondeterminism(chk):
+    """Where do values from nondeterminism sources (random, now, id, hash, environment, pid) end up?  The provenance
+    engine of sa/stores.py is run over the whole package with those calls as sources: the only stores such a value may
+    reach are the FILE-SET-NUMBER and CREATION-TIME defaults of an ORIGIN, each on a path where the attribute was found
+    unset; and no function on the byte-producing path may return such a value directly."""
+    from ..stores import WritePathStores
+    from ..terms import pp, call_name, NONE
     ix = chk.ix
+
+    def nondet(t):
+        if t[0] != "call":
+            return False
+        fn = pp(t[1])
+        return any(w in fn for w in NONDET) or fn in ("id", "hash")
+    funcs = [f for f in ix.functions.values() if isinstance(f.node, (ast.FunctionDef, ast.AsyncFunctionDef))]
+    w = WritePathStores(ix, chk.cg, chk.terms, funcs, PER_WRITE_CLASSES, sources={}, source_term=nondet)
     sites = []
-    for f in ix.functions.values():
-        for n in walk_local(f.node):
-            if isinstance(n, ast.Call):
-                src = norm(n.func)
-                if any(w in src for w in NONDET):
-                    sites.append((f, n, src))
-    chk.info["nondeterminism_sites"] = [f"{f.short}: {src}" for f, n, src in sites]
+    for f in funcs:
+        for c in chk.terms.summary(f).all_calls():
+            if nondet(c):
+                sites.append((f, c))
+    chk.info["nondeterminism_sites"] = sorted({f"{f.short}: {pp(c)[:60]}" for f, c in sites})
     chk.floor("nondeterminism sites", len(sites), 2)
-    origin = ix.get_class("OriginItem")
-    for f, n, src in sites:
-        in_origin = f.cls is origin
-        guarded = False
-        if in_origin:
-            # must sit under `if <attr>.value is None`
-            for st in ast.walk(f.node):
-                if isinstance(st, ast.If) and "is None" in norm(st.test) and any(x is n for b in st.body
-                                                                                 for x in ast.walk(b)):
-                    guarded = True
-        chk.require(in_origin and guarded, "R14.6", f"nondeterminism:{f.short}:{src}",
-                    f"`{src}` makes the output depend on something other than the specification "
-                    f"(allowed only for the FILE-SET-NUMBER / CREATION-TIME defaults when not supplied)",
-                    f"{f.module.relpath}:{n.lineno}")
+    allowed = {"OriginItem.file_set_number.value", "OriginItem.creation_time.value"}
+    hit = set()
+    for s in w.stores:
+        if not s.derived:
+            continue
+        target = ("attr", s.base, s.field)
+        unset = any(l == ("cmp", "is", target, NONE) or l == ("not", target) for l in s.pc)
+        hit.add(s.key)
+        chk.require(s.key in allowed and unset, "R14.6", f"nondeterminism:{s.key}",
+                    f"{s.func.short} stores `{pp(s.value)[:70]}` (from a nondeterminism source) into {s.key}"
+                    f"{'' if s.key in allowed else ': allowed only for the FILE-SET-NUMBER / CREATION-TIME defaults'}"
+                    f"{'' if unset else ' on a path that does not say the attribute was unset'}", s.where)
+    write = ix.get_method("DLISFile", "write")
+    reach = set(chk.cg.reachable([write]))
+    for f in sorted(w.derived_returns, key=lambda x: x.short):
+        direct = any(nondet(c) for c in chk.terms.summary(f).all_calls())
+        chk.require(f not in reach, "R14.6", f"nondeterminism-on-byte-path:{f.short}",
+                    f"{f.short}, reachable from DLISFile.write, returns a value taken from a nondeterminism source",
+                    f.where)
+    for f, c in sites:
+        # every source must be accounted for: it feeds an allowed store (through returns / helpers) or nothing
+        chk.consult(f)
+    chk.require(bool(hit & allowed), "R14.6", "nondeterminism-sources-feed-the-origin-defaults",
+                "no nondeterminism source reaches the FILE-SET-NUMBER / CREATION-TIME defaults: the inventory is blind",
+                "", nontrivial=False)
     # iteration over sets on the byte-producing path
     write = ix.get_method("DLISFile", "write")
     reach = chk.cg.reachable([write])
